@@ -72,6 +72,13 @@ def run(tier, replay=None):
                 what = kind if kind not in ('ok', 'error') else ('wrote a file although it reported an error' if recs[i]['obs']['wrote'] else 'neither output nor diagnostic')
                 key = "%s:%s" % (kind, fuzzlib.stable(detail) if detail else what)
                 chk.violation(key, "hexasm on input %s (%s): %s %s" % (c['id'], c['fam'], what, detail), {"input.S": c['src'].encode('latin-1', 'replace')})
+        plain = vlib.build_cxx("asm_case", ["asm_case.cpp"])
+        usub = [c for c in cases if c['fam'] == 'unusual']
+        sub = usub[:: max(1, len(usub) // (400 if tier == "quick" else 20000))] + [c for c in cases if c['fam'] == 'edge'] + [{'id': 'seed%d' % k, 'src': s} for k, s in enumerate(seeds[:30])]
+        vg = fuzzlib.valgrind_batch(plain, None, sub, d, "c10vg", "-")
+        chk.set("valgrind_memcheck_inputs", len(sub) if vg is not None else 0)
+        for c, head in (vg or []):
+            chk.violation("memcheck:" + fuzzlib.stable(head), "hexasm on input %s: valgrind memcheck reports %s" % (c['id'], head), {"input.S": c['src'].encode('latin-1', 'replace')})
         # the lexer against spec/Lex.tla: every string up to length 4 over a small alphabet, tokenised by TLC and by the tool
         import lexcheck
         nlex, lexbad = lexcheck.run(d, exe, exe, only="asm")
